@@ -268,6 +268,17 @@ def C15(ctx):
     # the same *value* at another size, right after a valid call with it (a cache consulted before the guards)
     def resize(v):
         out = [v.lstrip(b"\x00"), b"\x00" + v, b"\x00\x00" + v, v + b"\x00", v[:-1], v[1:], v + v, bytes(len(v) + 1), bytes(max(0, len(v) - 1))]
+        # other encodings of the same value: the expanded triple-length form K1||K2||K1, a half, hex text, a length prefix,
+        # and the value as a BER-TLV data object (bare, long-form length, inside a template) under the usual tags
+        h = len(v) // 2
+        out += [v + v[:h], v[h:] + v, v[:h], v[h:], v.hex().encode(), v.hex().upper().encode(), bytes([len(v)]) + v]
+        if len(v) < 128:
+            for tag in ("9F36", "9F26", "9F37", "9F10", "8A", "91", "57", "C0"):
+                t = bytes.fromhex(tag)
+                obj = t + bytes([len(v)]) + v
+                out += [obj, t + b"\x81" + bytes([len(v)]) + v]
+                if len(obj) < 128:
+                    out += [b"\x77" + bytes([len(obj)]) + obj, b"\x70" + bytes([len(obj) + 2]) + b"\x77" + bytes([len(obj)]) + obj]
         return [x for x in out if len(x) != len(v)]
     for name, sizes, build in sized_params(g):
         for i in range(len(sizes)):
@@ -484,7 +495,7 @@ def C19(ctx):
     for _ in range(ctx.n(2000, 20000)):
         cases.append(op_parity(R.choice([R.getrandbits(32), R.getrandbits(32), 1 << R.randrange(0, 40), (1 << R.randrange(0, 33)) - 1, R.getrandbits(40)]), gen="parity random 32-bit"))
     for _ in range(ctx.n(1500, 15000)):
-        k = R.choice([g.key(), R.randbytes(8), R.randbytes(24), g.keys[5][:8]]) if R.random() < .92 else g.badkey()
+        k = R.choice([g.key(), R.randbytes(8), R.randbytes(24), g.key24(), g.key24(), g.keys[5][:8]]) if R.random() < .92 else g.badkey()
         c = R.randrange(3)
         if c == 0:
             cases.append(op_kcv(k, R.choice([0, 1, 2, 3, 6, 8, 9]), gen="kcv"))
@@ -495,7 +506,7 @@ def C19(ctx):
             cases.append(op_cbc(k, iv, g.msg(70), gen="cbc 8/16/24-byte keys, varying IV"))
     # check values of a key and of its single-bit / masked neighbours, one after the other
     for _ in range(ctx.n(60, 600)):
-        k = R.choice([g.fresh_key(), R.randbytes(8), R.randbytes(24), bytes(16)])
+        k = R.choice([g.fresh_key(), R.randbytes(8), R.randbytes(24), g.key24(), bytes(16)])
         vs = [k, bytes(b ^ 0x80 for b in k), bytes(b ^ 1 for b in k), bytes(b & 0x7F for b in k), bytes(b | 0x80 for b in k), k]
         i = R.randrange(len(k)); vs.append(k[:i] + bytes([k[i] ^ (1 << R.randrange(8))]) + k[i + 1:])
         for v in vs:
